@@ -10,6 +10,9 @@ un-discharge the build-list obligations of C10.
 namespace Dawn.Ties.MvsEdit
 open Dawn
 
+/-- every C11-only fact was found in the sources -/
+theorem extraction_complete_c11 : Extracted.Mvs.extractionErrorsC11 = [] := by decide
+
 /-- `Reqs.Previous` starts its search from `"none"`, the model's `previous` from `Ver.none` (D13: it used to be `""`) -/
 theorem previous_start_ok : Extracted.Mvs.previousStart = Mvs.Ver.none.render := by decide
 
@@ -19,5 +22,11 @@ theorem bodies_c11_ok : Extracted.Mvs.bodiesC11 = Expected.Mvs.bodiesC11 := rfl
 
 /-- `Req`, `ReqList`, `UpgradeAll`, `Upgrade`, `Downgrade`, `override.Required` of `github.com/pgavlin/mvs` -/
 theorem third_bodies_c11_ok : Extracted.Mvs.thirdBodiesC11 = Expected.Mvs.thirdBodiesC11 := rfl
+
+/-- the model's `Env.tags` holds canonical versions only (non-canonical tags are dropped at the boundary: D30). That is what
+the code does as long as the only functions of `internal/mvs` that read the repository's raw tag list are the filter
+`taggedVersions` itself and the revision lookup of a (canonical) requirement, which matches its tag exactly -/
+theorem raw_tag_readers_ok : Extracted.Mvs.rawTagReaders =
+    ["internal/mvs/resolver.go:resolveProjectRevision", "internal/mvs/resolver.go:taggedVersions"] := by decide
 
 end Dawn.Ties.MvsEdit
